@@ -210,6 +210,20 @@ def s_hist2(tf: int, is_async: bool, t1: int, k1: int, k2: int, t2: int, x: int,
 
 
 @cond(
+    pre=["0 <= k1 < N_KIND", "0 <= k2 < N_KIND", "0 <= t2 < len(NAMES)"],
+    timeout=400,
+    tiers=("quick",),
+    shard={"tf": list(range(len(NAMES))), "t1": list(range(len(NAMES))), "is_async": [False, True]},
+    covers="two earlier operations (any kinds, any templates) before the observation, as s_hist1, at one data point (the thorough tier varies data and clock as well)",
+    bounds="8 x 7 x 8 x 7 histories x 7 observed templates x sync/async; x = 1, clock advances one day per step",
+    stubs=STUBS,
+)
+def s_hist2q(tf: int, is_async: bool, t1: int, k1: int, k2: int, t2: int) -> bool:
+    steps = [(concrete_int(k1, 0, N_KIND - 1), t1, 1), (concrete_int(k2, 0, N_KIND - 1), concrete_int(t2, 0, len(NAMES) - 1), 1)]
+    return untraced(lambda: _history_ok(steps, (tf, is_async, 1), [1, 1], False))
+
+
+@cond(
     pre=["0 <= x <= 2", "6 <= edit <= 7"],
     timeout=200,
     shard={"tf": list(range(len(NAMES)))},
